@@ -40,6 +40,8 @@ func runC17(c *eng.Ctx) {
 
 	c.Rule("R17.6", "K4")
 	ruleSealedValueIsTheCallers(c)
+	c.Rule("R17.4", "K5")
+	ruleCipherIsBuiltFromTheValuesKey(c)
 	// ---- R17.1 seal before store
 	c.Rule("R17.1", "K2")
 	if fn := c.Fn(msgLoopKey); fn != nil {
